@@ -114,7 +114,6 @@ func checkC13(w *World, r *Report) {
 
 	fns := dnsPkgFuncs(w)
 	validate := w.Method("internal/streams/dns", "ServerDnsListener", "validateAndGetUser")
-	closeConn := w.Method("internal/streams/dns", "ServerDnsListener", "closeConnection")
 
 	// ---------------------------------------------------------------- R13.1 + R13.3
 	for _, fn := range fns {
@@ -207,120 +206,7 @@ func checkC13(w *World, r *Report) {
 	}
 
 	// ---------------------------------------------------------------- R13.2
-	nh := 0
-	for _, fn := range fns {
-		obj, _ := fn.Object().(*types.Func)
-		if obj == nil || obj == validate || obj == closeConn {
-			continue
-		}
-		var vcall *ssa.Call
-		for _, c := range callsIn(fn) {
-			if sCallee(c) == validate {
-				vcall, _ = c.(*ssa.Call)
-			}
-		}
-		if vcall == nil {
-			continue
-		}
-		// re-validation of a session the caller already holds (validateAndGetUser(x.UserId, x.remoteAddress) of
-		// one and the same object) is not a request handler: nothing in it comes from a message
-		if len(vcall.Call.Args) == 3 {
-			a1, a2 := asFieldAddr(vcall.Call.Args[1]), asFieldAddr(vcall.Call.Args[2])
-			if a1 != nil && a2 != nil && a1.X == a2.X && fieldVarOf(a1) != nil && fieldVarOf(a1).Name() == "UserId" {
-				continue
-			}
-		}
-		key := "handler:" + ssaFuncKey(fn)
-		var user, errv ssa.Value
-		for _, ref := range *vcall.Referrers() {
-			if ex, ok := ref.(*ssa.Extract); ok {
-				if ex.Index == 0 {
-					user = ex
-				} else {
-					errv = ex
-				}
-			}
-		}
-		// session-state touches
-		rooted := func(v ssa.Value) bool {
-			for d := 0; d < 6; d++ {
-				switch x := v.(type) {
-				case *ssa.FieldAddr:
-					v = x.X
-					continue
-				case *ssa.UnOp:
-					if x.Op == token.MUL {
-						v = x.X
-						continue
-					}
-				}
-				break
-			}
-			if user == nil {
-				return false
-			}
-			for _, root := range provenance(v, provOpts{}) {
-				if root == user {
-					return true
-				}
-			}
-			return v == user
-		}
-		var touches []ssa.Instruction
-		allInstrs(fn, func(in ssa.Instruction) {
-			switch x := in.(type) {
-			case *ssa.Store:
-				if _, isFA := x.Addr.(*ssa.FieldAddr); isFA && rooted(x.Addr) {
-					touches = append(touches, in)
-				}
-			case ssa.CallInstruction:
-				cc := x.Common()
-				f := sCallee(x)
-				if f == closeConn {
-					touches = append(touches, in)
-					return
-				}
-				if len(cc.Args) > 0 && !cc.IsInvoke() {
-					if fa, ok := cc.Args[0].(*ssa.FieldAddr); ok && rooted(fa) {
-						// method on a field of the session: queues (in/out) are state; the serializer (value receiver, read-only encode) is not
-						if n := recvNamed(f); n != nil && (n.Obj().Name() == "InQueue" || n.Obj().Name() == "OutQueue") {
-							touches = append(touches, in)
-						}
-					}
-				}
-			}
-		})
-		// the onMessage dispatcher only reads user.Serializer: no touches expected
-		if len(touches) == 0 && errv == nil {
-			continue
-		}
-		nh++
-		bad := ""
-		isErr := func(v ssa.Value) bool { x, _, ok := nilTest(v); return ok && errv != nil && x == errv }
-		for _, t := range touches {
-			if !dominatedByCondNil(fn, t, isErr) {
-				bad = fmt.Sprintf("%s: session state is touched on a path where validateAndGetUser's error was not checked nil (a spoofed message with a live identifier from a foreign address reads, acknowledges or alters that session)", w.Pos(t.Pos()))
-			}
-		}
-		// arguments: the request's UserId and the handler's remote address parameter
-		okArgs := false
-		if len(vcall.Call.Args) == 3 {
-			a1 := asFieldAddr(vcall.Call.Args[1])
-			_, isParam := vcall.Call.Args[2].(*ssa.Parameter)
-			okArgs = a1 != nil && fieldVarOf(a1) != nil && fieldVarOf(a1).Name() == "UserId" && isParam
-			if !okArgs {
-				// dispatcher form: userId decoded from the header, remoteAddr parameter
-				okArgs = isParam
-			}
-		}
-		if !okArgs {
-			bad = fmt.Sprintf("%s: validateAndGetUser is not called with the request's user id and the datagram's source address", w.Pos(vcall.Pos()))
-		}
-		r.Check(bad == "", "R13.2", key, w.Pos(vcall.Pos()), fmt.Sprintf("%d session-state touch(es), all on the err == nil edge of validateAndGetUser(request id, source address)", len(touches)), bad, "touches", len(touches))
-	}
-	if nh == 0 {
-		r.Undecided("R13.2", "handlers", "-", "no handler calling validateAndGetUser found")
-	}
+	ruleHandlersGuarded(w, r, "R13.2")
 	// inside validateAndGetUser
 	if fn := w.SSAFunc(validate); fn != nil {
 		key := "method:(*streams/dns.ServerDnsListener).validateAndGetUser|address-first"
@@ -624,4 +510,131 @@ func c13IdentityGuard(w *World, fn *ssa.Function, st *ssa.Store, x ssa.Value, li
 		}
 	}
 	return ncall > 0 && all
+}
+
+// ruleHandlersGuarded: in every request handler that looks a session up, each store to the session object,
+// each call on its in/out queues and each closeConnection lies on the err == nil edge of
+// validateAndGetUser(request id, source address). Registered as C13 R13.2 and C12 R12.8.
+func ruleHandlersGuarded(w *World, r *Report, rule string) {
+	fns := dnsPkgFuncs(w)
+	validate := w.Method("internal/streams/dns", "ServerDnsListener", "validateAndGetUser")
+	closeConn := w.Method("internal/streams/dns", "ServerDnsListener", "closeConnection")
+	if validate == nil || closeConn == nil {
+		r.Undecided(rule, "handlers", "-", "anchor unresolved: validateAndGetUser / closeConnection")
+		return
+	}
+	nh := 0
+	for _, fn := range fns {
+		obj, _ := fn.Object().(*types.Func)
+		if obj == nil || obj == validate || obj == closeConn {
+			continue
+		}
+		var vcall *ssa.Call
+		for _, c := range callsIn(fn) {
+			if sCallee(c) == validate {
+				vcall, _ = c.(*ssa.Call)
+			}
+		}
+		if vcall == nil {
+			continue
+		}
+		// re-validation of a session the caller already holds (validateAndGetUser(x.UserId, x.remoteAddress) of
+		// one and the same object) is not a request handler: nothing in it comes from a message
+		if len(vcall.Call.Args) == 3 {
+			a1, a2 := asFieldAddr(vcall.Call.Args[1]), asFieldAddr(vcall.Call.Args[2])
+			if a1 != nil && a2 != nil && a1.X == a2.X && fieldVarOf(a1) != nil && fieldVarOf(a1).Name() == "UserId" {
+				continue
+			}
+		}
+		key := "handler:" + ssaFuncKey(fn)
+		var user, errv ssa.Value
+		for _, ref := range *vcall.Referrers() {
+			if ex, ok := ref.(*ssa.Extract); ok {
+				if ex.Index == 0 {
+					user = ex
+				} else {
+					errv = ex
+				}
+			}
+		}
+		// session-state touches
+		rooted := func(v ssa.Value) bool {
+			for d := 0; d < 6; d++ {
+				switch x := v.(type) {
+				case *ssa.FieldAddr:
+					v = x.X
+					continue
+				case *ssa.UnOp:
+					if x.Op == token.MUL {
+						v = x.X
+						continue
+					}
+				}
+				break
+			}
+			if user == nil {
+				return false
+			}
+			for _, root := range provenance(v, provOpts{}) {
+				if root == user {
+					return true
+				}
+			}
+			return v == user
+		}
+		var touches []ssa.Instruction
+		allInstrs(fn, func(in ssa.Instruction) {
+			switch x := in.(type) {
+			case *ssa.Store:
+				if _, isFA := x.Addr.(*ssa.FieldAddr); isFA && rooted(x.Addr) {
+					touches = append(touches, in)
+				}
+			case ssa.CallInstruction:
+				cc := x.Common()
+				f := sCallee(x)
+				if f == closeConn {
+					touches = append(touches, in)
+					return
+				}
+				if len(cc.Args) > 0 && !cc.IsInvoke() {
+					if fa, ok := cc.Args[0].(*ssa.FieldAddr); ok && rooted(fa) {
+						// method on a field of the session: queues (in/out) are state; the serializer (value receiver, read-only encode) is not
+						if n := recvNamed(f); n != nil && (n.Obj().Name() == "InQueue" || n.Obj().Name() == "OutQueue") {
+							touches = append(touches, in)
+						}
+					}
+				}
+			}
+		})
+		// the onMessage dispatcher only reads user.Serializer: no touches expected
+		if len(touches) == 0 && errv == nil {
+			continue
+		}
+		nh++
+		bad := ""
+		isErr := func(v ssa.Value) bool { x, _, ok := nilTest(v); return ok && errv != nil && x == errv }
+		for _, t := range touches {
+			if !dominatedByCondNil(fn, t, isErr) {
+				bad = fmt.Sprintf("%s: session state is touched on a path where validateAndGetUser's error was not checked nil (a spoofed message with a live identifier from a foreign address reads, acknowledges or alters that session)", w.Pos(t.Pos()))
+			}
+		}
+		// arguments: the request's UserId and the handler's remote address parameter
+		okArgs := false
+		if len(vcall.Call.Args) == 3 {
+			a1 := asFieldAddr(vcall.Call.Args[1])
+			_, isParam := vcall.Call.Args[2].(*ssa.Parameter)
+			okArgs = a1 != nil && fieldVarOf(a1) != nil && fieldVarOf(a1).Name() == "UserId" && isParam
+			if !okArgs {
+				// dispatcher form: userId decoded from the header, remoteAddr parameter
+				okArgs = isParam
+			}
+		}
+		if !okArgs {
+			bad = fmt.Sprintf("%s: validateAndGetUser is not called with the request's user id and the datagram's source address", w.Pos(vcall.Pos()))
+		}
+		r.Check(bad == "", rule, key, w.Pos(vcall.Pos()), fmt.Sprintf("%d session-state touch(es), all on the err == nil edge of validateAndGetUser(request id, source address)", len(touches)), bad, "touches", len(touches))
+	}
+	if nh == 0 {
+		r.Undecided(rule, "handlers", "-", "no handler calling validateAndGetUser found")
+	}
 }
